@@ -354,11 +354,14 @@ func checkError(path string, nodeOrPos any, format string, args ...any) error {
 	var pos *ast.Position
 	if node, ok := nodeOrPos.(ast.Node); ok {
 		pos = node.Pos()
-		if pos == nil {
-			return fmt.Errorf(format, args...)
-		}
 	} else {
 		pos = nodeOrPos.(*ast.Position)
+	}
+	if pos == nil {
+		// The node has been synthesized by the type checker and has no
+		// position: report the error at the beginning of the file, so that
+		// it is still a *CheckingError.
+		pos = &ast.Position{Line: 1, Column: 1}
 	}
 	var err = &CheckingError{
 		path: path,
